@@ -15,16 +15,16 @@ import (
 	"syscall"
 )
 
-// RepoDir is the repository under test (VERIF_REPO, default /repo).
-func RepoDir() string {
+// IxsRepoDir is the repository under test (VERIF_REPO, default /repo).
+func IxsRepoDir() string {
 	if d := os.Getenv("VERIF_REPO"); d != "" {
 		return d
 	}
 	return "/repo"
 }
 
-// WorkDir is the check's scratch directory for this run (VERIF_WORK), or a fresh temp dir.
-func WorkDir() string {
+// IxsWorkDir is the check's scratch directory for this run (VERIF_WORK), or a fresh temp dir.
+func IxsWorkDir() string {
 	if d := os.Getenv("VERIF_WORK"); d != "" {
 		return d
 	}
@@ -40,7 +40,7 @@ func WorkDir() string {
 func BuildIndexserver(tag string) string {
 	// a stable output path lets `go build` skip the link when the tree has not changed (it compares build ids);
 	// one path per property so that concurrent checks do not write the same file
-	bin := filepath.Join(WorkDir(), "indexserver.verif.bin")
+	bin := filepath.Join(IxsWorkDir(), "indexserver.verif.bin")
 	if root := os.Getenv("VERIF_ROOT"); root != "" {
 		if err := os.MkdirAll(filepath.Join(root, "harness", "bin"), 0o755); err == nil {
 			bin = filepath.Join(root, "harness", "bin", "indexserver."+tag+".bin")
@@ -53,7 +53,7 @@ func BuildIndexserver(tag string) string {
 		}
 	}
 	cmd := exec.Command("go", "build", "-tags", "verif", "-o", bin, "./cmd/zoekt-sourcegraph-indexserver")
-	cmd.Dir = RepoDir()
+	cmd.Dir = IxsRepoDir()
 	out, err := cmd.CombinedOutput()
 	if err != nil {
 		fmt.Fprintf(os.Stderr, "building the indexserver driver failed: %v\n%s\n", err, out)
@@ -62,14 +62,14 @@ func BuildIndexserver(tag string) string {
 	return bin
 }
 
-// LineProc is a subprocess answering one line per request line.
-type LineProc struct {
+// IxsLineProc is a subprocess answering one line per request line.
+type IxsLineProc struct {
 	cmd *exec.Cmd
 	in  io.WriteCloser
 	out *bufio.Reader
 }
 
-func StartLineProc(bin string, env ...string) *LineProc {
+func StartIxsLineProc(bin string, env ...string) *IxsLineProc {
 	cmd := exec.Command(bin)
 	cmd.Env = append(os.Environ(), env...)
 	cmd.Stderr = io.Discard
@@ -84,11 +84,11 @@ func StartLineProc(bin string, env ...string) *LineProc {
 	if err := cmd.Start(); err != nil {
 		panic(err)
 	}
-	return &LineProc{cmd: cmd, in: in, out: bufio.NewReaderSize(out, 1<<20)}
+	return &IxsLineProc{cmd: cmd, in: in, out: bufio.NewReaderSize(out, 1<<20)}
 }
 
 // Do sends one request and returns the answer; ok=false if the process died (a crash of the code under test).
-func (p *LineProc) Do(line string) (string, bool) {
+func (p *IxsLineProc) Do(line string) (string, bool) {
 	if _, err := io.WriteString(p.in, line+"\n"); err != nil {
 		return "", false
 	}
@@ -99,7 +99,7 @@ func (p *LineProc) Do(line string) (string, bool) {
 	return strings.TrimRight(s, "\r\n"), true
 }
 
-func (p *LineProc) Close() {
+func (p *IxsLineProc) Close() {
 	p.in.Close()
 	p.cmd.Wait()
 }
